@@ -301,7 +301,7 @@ def format_table(cx):
 
 
 def r6_time_search(cx):
-    cx.rule("C14.R6", "time search includes stamped lines at or after the time plus their continuation lines", floor=6)
+    cx.rule("C14.R6", "time search includes stamped lines at or after the time plus their continuation lines", floor=7)
     fn, tnode, table = format_table(cx)
     cmps = [c for c in walk_body(fn.body) if isinstance(c, ast.Compare) and "logstamp" in U(c) and "timestamp" in U(c) and "eleven_months" not in U(c)]
     ok = bool(cmps) and U(cmps[0]) in ("logstamp >= timestamp", "timestamp <= logstamp")
@@ -324,6 +324,13 @@ def r6_time_search(cx):
         ok = len(ys2) == 1 and set(guard_texts(ys2[0], stop=outer)) == set([("including_lines", True)]) and U(ys2[0].value) == "self._parse_line(line)"
     cx.require(ok, outer if outer is not None else fn, "a line without a time stamp is yielded iff lines are currently being included (continuation line)",
                construct="else: if including_lines: yield self._parse_line(line)")
+    md = [a for a in walk_body(fn.body) if isinstance(a, ast.Assign) and U(a.targets[0]) == "match"]
+    ok = len(md) == 1 and U(md[0].value) == "time_re.search(line)"
+    if ok:
+        g = set((U(e), p, o) for e, p, o in guards_ex(md[0], stop=enclosing(md[0], ast.For)))
+        ok = g <= set([("s and (not search_by_expression(line))", False, "exit-jump"), ("s", False, "exit-jump"), ("search_by_expression(line)", True, "exit-jump")])
+    cx.require(ok, md[0] if md else fn, "every line (that passes the keyword filter) is searched for a time stamp - the decision never depends on whether lines are currently being included",
+               construct=short(md[0]) if md else "(no match = time_re.search(line))")
     init = [a for a in walk_body(fn.body) if isinstance(a, ast.Assign) and U(a.targets[0]) == "including_lines" and enclosing(a, ast.For) is None]
     cx.require(len(init) == 1 and U(init[0].value) == "False", init[0] if init else fn, "nothing is included before the first matching time stamp", construct=short(init[0]) if init else "(none)")
     lp = [x for x in walk_body(fn.body) if isinstance(x, ast.For) and U(x.iter) == "self.lines"]
